@@ -42,6 +42,7 @@ type env struct {
 	// actors that can be written into messages
 	A, B, U, G, L *actor
 	C             *actor // a CosmWasm contract deployed by the attacker (wasm extension)
+	V             *actor // a second attacker that is itself a bonded validator with registered chain accounts (w.Vals[1])
 	actors        []*actor
 	byName        map[string]*actor
 	// world actors (keys) by name; G has none
@@ -115,8 +116,12 @@ func newEnv() *env {
 	e.L = mk("L", "licensee", w.User("L").Addr, "L")
 	e.M = mk("M", "licensee", w.User("M").Addr, "M")
 	e.C = mk("C", "contract", wasmkeeper.BuildContractAddressClassic(1, 1), "C")
+	e.V = mk("V", "validator-attacker", w.Vals[1].Addr, w.Vals[1].Name)
+	if e.V.EthHex != w.Vals[1].EthAddr() {
+		panic("eth key derivation differs from world.NewVal")
+	}
 	e.actors = []*actor{e.A, e.B, e.U, e.G, e.L}
-	e.keys = map[string]*world.Actor{"A": w.User("A"), "B": b.Actor, "U": w.User("U"), "L": w.User("L"), "M": w.User("M")}
+	e.keys = map[string]*world.Actor{"A": w.User("A"), "B": b.Actor, "U": w.User("U"), "L": w.User("L"), "M": w.User("M"), "V": w.Vals[1].Actor}
 	e.setup()
 	return e
 }
